@@ -80,7 +80,8 @@ bool MPSInput::readLine()
       // Read until we have a non-empty, non-comment line.
       do
       {
-         if(!m_input.getline(m_buf, sizeof(m_buf)).good() && !m_input.eof())
+         // getline sets failbit when nothing could be extracted (end of file) and when the line does not fit
+         if(m_input.getline(m_buf, sizeof(m_buf)).fail())
             return false;
 
          m_lineno++;
